@@ -1,9 +1,10 @@
 #!/bin/sh
 # usage: dbg.sh [checks] [seed]
 cd /verif/harness && export GOFLAGS=-mod=mod GOPROXY=off && rm -rf /dev/shm/c19dbg c19/testdata
-VERIF_C19_ASSUME_KNOWN=${KNOWN-all} VERIF_REPLAY_OUT=/dev/shm/c19dbg go test -tags verif -vet=off -count=1 -run 'TestRandom' ./c19 -rapid.checks=${1:-300} ${2:+-rapid.seed=$2} -rapid.nofailfile 2>&1 | grep -v "\[rapid\] draw" | grep -v "^ *\(/root\|/verif\).*\.go:[0-9]* in\|traceback\|Failed test output\|^ *$" | tail -8
+VERIF_REPLAY_OUT=/dev/shm/c19dbg go test -tags verif -vet=off -count=1 -run 'TestRandom' ./c19 -rapid.checks=${1:-300} ${2:+-rapid.seed=$2} -rapid.nofailfile 2>&1 | grep -v "\[rapid\] draw" | grep -v "^ *\(/root\|/verif\).*\.go:[0-9]* in\|traceback\|Failed test output\|^ *$" | tail -8
 [ -f /dev/shm/c19dbg/TestRandom.json ] && python3 -c "
 import json
 d=json.load(open('/dev/shm/c19dbg/TestRandom.json'))
 print(d['error'])
 print(json.dumps(d['case']))"
+exit 0
